@@ -357,4 +357,6 @@ def line_iter(r):
 
 
 def line_to_str(line):
-    return str(CHText(line))
+    # "consuming a result line by line": what print(line) shows.  (Until the repair recorded in
+    # known_findings.txt tables yielded bare lists of chunks for title and record lines.)
+    return str(line)
